@@ -79,10 +79,20 @@ def run_real(rows, cols, encoding, chunks, feed='write'):
     """chunks: list of str or bytes; feed: the entry point the pieces go through - write(), its alias process_list(), or process() one
     character / byte at a time"""
     t = ANSI.ANSI(rows, cols, encoding=encoding)
+    other = ANSI.ANSI(rows, cols, encoding=encoding) if feed == 'two' else None
     try:
         for ch in chunks:
             if feed == 'write':
                 t.write(ch)
+            elif feed == 'two':
+                # two more terminals of the same kind live next to this one: one is fed the beginning of every piece, one is constructed
+                # between this one's writes - a terminal's pending input is its own
+                t.write(ch)
+                try:
+                    other.write(ch[:1])
+                    ANSI.ANSI(rows, cols, encoding=encoding).write(ch[:1])
+                except Exception:
+                    pass
             elif feed == 'write+flush':
                 t.write(ch); t.flush()          # what spawn._log does with a log file: the terminal may be one
             elif feed == 'process_list':
@@ -206,10 +216,14 @@ def run(ctx):
         nseen += 1
         if msg is None and not real.startswith('raises') and nseen % 3 == 0:
             # the other entry points that feed the terminal must agree with write()
-            feed = ('process_list', 'process', 'write+flush')[(nseen // 3) % 3]
+            feed = ('process_list', 'process', 'write+flush', 'two')[(nseen // 3) % 4]
             other = run_real(rows, cols, e, chunks, feed)[0]
             if other != real:
-                msg = 'fed through %s() gives %s, through write() the terminal is different' % (feed, 'an exception (%s)' % other.split(':')[1] if other.startswith('raises') else 'another terminal')
+                what = 'an exception (%s)' % other.split(':')[1] if other.startswith('raises') else 'another terminal'
+                if feed == 'two':
+                    msg = 'fed through write() while two other terminals are written to gives %s, alone the terminal is different' % what
+                else:
+                    msg = 'fed through %s() gives %s, through write() the terminal is different' % (feed, what)
         if msg and oracle_fail is None:
             oracle_fail = (rows, cols, e, chunks, msg)
         if mo is not None and mo != real and not (mo == 'raises' and real.startswith('raises')) and corr_fail is None:
@@ -219,7 +233,8 @@ def run(ctx):
         chunks = shrink(rows, cols, e, chunks)
         common.report(ctx, 'ansi/' + msg.split(' ')[0] + '/' + msg.split(' ')[-1][:20], 'ANSI(%d,%d) fed %r: %s' % (rows, cols, chunks, msg),
                       dict(rows=rows, cols=cols, encoding=e, chunks=[c.decode('latin-1') if isinstance(c, bytes) else c for c in chunks],
-                           bytes=[isinstance(c, bytes) for c in chunks], how='ANSI.ANSI(rows, cols, encoding=encoding).write(chunk) for each chunk'))
+                           bytes=[isinstance(c, bytes) for c in chunks], feed=('two' if 'two other terminals' in msg else 'write'),
+                           how='ANSI.ANSI(rows, cols, encoding=encoding).write(chunk) for each chunk' + (' (feed two: a second terminal is written the first byte of each chunk and a third is constructed in between; see run_real)' if 'two other terminals' in msg else '')))
     elif corr_fail:
         rows, cols, e, chunks, real, mo = corr_fail
         ctx.broken.append('correspondence ANSI model vs pexpect.ANSI on %dx%d %r: real %s model %s' % (rows, cols, chunks, real[-80:], mo[-80:]))
@@ -273,4 +288,8 @@ def replay(ctx, path):
     chunks = [c.encode('latin-1') if b else c for c, b in zip(d['chunks'], d['bytes'])]
     real, t = run_real(d['rows'], d['cols'], d['encoding'], chunks)
     print(real)
+    if d.get('feed') == 'two':
+        two = run_real(d['rows'], d['cols'], d['encoding'], chunks, 'two')[0]
+        print(two)
+        return 1 if two != real else 0
     return 1 if real.startswith('raises') or shape_problem(t, d['rows'], d['cols']) else 0
